@@ -23,7 +23,7 @@ STATUS = {
  "C12": ("manifest order independence", "manifest repeated with fresh hash maps", "3 processes × environments, in-process twice"),
  "C13": ("table_complete / table_sound / legal_keywords_rawable over tables REGENERATED from the source on every run, emitted_identifier_valid_partial, emit_injective, rename_preserves_binding, self_type_name_unemittable (Props/C13, Sem/Names, Generated/Keywords)", "is_keyword on every entry + near misses; emitTok = spelling of a local and a struct field in the emitted Rust; one compiled program per (binding position, name) incl. reflection (__fields__, __class_name__, JSON keys); sibling names (k, k_, _k, r_k, K) bound side by side", "renamed program behaves like the plain-named one; sibling bindings keep their own values"),
  "C14": ("resolvers_agree_partial + 3 witnesses, private_rejected, exported_iff, private_decl_rejected, work-list lemmas", "both resolvers on real trees (incl. deep entries, multi-level parents), visibility verdicts, export computation on generated modules imported from the entry directory and from nested packages (pkg.inner, pkg.sub.deep)", "agreement, visibility, missing/cycle"),
- "C15": ("all_pinned, unknown_refused, deps_exact, names_nodup; json_trigger_found_everywhere / async_trigger_found_everywhere (Tool/Scanners: every walker step is one the scanner follows), json_trigger_was_missed witness", "ProjectGenerator + `incan build` (stub cargo) + trigger positions (json_stringify in 40 statement / expression / owner positions; serde derives in every decorator / list / declaration position); scanner sweep: model scans = real detect_*_usage with a trigger at every expression position of ~200 programs", "exactness, pinning, refs ⊆ declared"),
+ "C15": ("table_pinned over the crate table REGENERATED from add_rust_crate on every run, all_pinned, unknown_refused, deps_exact, names_nodup; json_trigger_found_everywhere / async_trigger_found_everywhere (Tool/Scanners: every walker step is one the scanner follows), json_trigger_was_missed witness", "ProjectGenerator + `incan build` (stub cargo) + trigger positions (json_stringify in 40 statement / expression / owner positions; serde derives in every decorator / list / declaration position); scanner sweep: model scans = real detect_*_usage with a trigger at every expression position of ~200 programs", "exactness, pinning, refs ⊆ declared"),
  "C16": ("verdict_truthful, skip_not_run, xfail_inverts, filter_exact, all_selected_reported, exit_iff_failure, counts_match (Props/C16, Tool/TestRunner)", "real `incan test` on generated files (every executed test through cargo test)", "ground truth of the test bodies (9 ways to fail: assert, assert_eq / ne / true / false, fail, index, division by zero, unwrap of None), -k with and without --slow over matching slow tests, -x, four @skip spellings"),
  "C17": ("construction_validated_partial, rejected_argument_stops, own_methods_exempt, other_methods_checked, select_sound / select_from_underlying / select_single, nominal, alias_bypasses witness (Props/C17, Sem/Newtype)", "compiled programs: 11 fixed declaration shapes + generated ones (1-3 methods, hook-shaped or near misses, hook-like and other names) × 19 sites × values; 6 underlying types", "hook enforced outside own methods; mixing newtypes rejected"),
  "C18": ("converges for all interleavings (ticket protocol); 3 counter-examples for the old protocol; open_dependency_overrides_disk", "event-log replay; importer diagnostics with a dependency text in the editor vs on disk", "hover = latest after quiescence; dependency scenarios must be sensitive"),
@@ -63,9 +63,10 @@ obligation without a failing input is reported as `VIOLATION … no-failing-inpu
 replay. No theorem uses `native_decide`; no axioms were added; there is no `sorry`.
 
 Deviations from the round-0 plan (errata):
-* Only one extractor exists: the keyword tables of C13 are regenerated from `RUST_KEYWORDS` and the real lexer on
-  every run and the theorems are re-checked against them. The other finite tables (numeric policy, known-good
-  crates, operator ladder) are hand-transcribed and tied *exhaustively* on every run.
+* Two translators exist: the keyword tables of C13 are regenerated from `RUST_KEYWORDS` and the real lexer, and the
+  known-good crate table of C15 / C12 from the match arms of `add_rust_crate` (a parser that refuses any shape it
+  does not know), on every run; the theorems are re-checked against them. The other finite tables (numeric policy,
+  operator ladder, scanner step lists) are hand-transcribed and tied *exhaustively* on every run.
 * C10 models the lexer's layout layer over a token/character stream cut at the real lexer's own token spans; C08's
   theorem is at token level over the expression ladder; string and bytes literal atoms have their own model
   (Syntax/Literals: what the formatter writes is what the lexer reads back). Statement and declaration
